@@ -3,6 +3,10 @@ import sys, os, json, time, subprocess, re, fcntl, hashlib, glob
 ROOT = os.path.dirname(os.path.dirname(os.path.abspath(__file__)))
 LEAN = os.path.join(ROOT, "lean")
 HARNESS = os.path.join(ROOT, "harness")
+# The registered commands always run against /repo.  VERIF_REPO (self-validation only) points the
+# translator and a private copy of the harness at another checkout, e.g. a scratch worktree
+# carrying a seeded change, so that /repo itself need not be touched while other work uses it.
+REPO = os.environ.get("VERIF_REPO", "/repo")
 DRIVER = os.path.join(LEAN, ".lake", "build", "bin", "driver")
 WORK = os.path.join(ROOT, "work")
 REPLAYS = os.path.join(ROOT, "replays")
@@ -111,9 +115,9 @@ PROPS = {
                 rule="hostile prefixes (i64 boundary lattice as requests on every transport, malformed frames, abrupt closes, oversize buffers) followed by a probe request on a new connection whose answer is compared with the model"),
     "C12": dict(runs=[("server", "cmd", dict(quick=400, thorough=10000)), ("server", "wire", dict(quick=40, thorough=600))], proj=proj_full, tags=["C12"],
                 rule="cmd: RESP commands (bulk vs :int arguments, any name case, arity 4..7, non-numeric / overflow arguments) through the real per-command handler with a real actor, the request the actor saw and the reply compared with the model's plan/finish; wire: each logical request routed to a random protocol/encoding over loopback sockets, wire answer compared field by field with what the actor log says the library decided"),
-    "C13": dict(runs=[("server", "resp", dict(quick=20000, thorough=2000000)), ("server", "conn", dict(quick=60, thorough=1500))], proj=proj_full, tags=["C13"],
+    "C13": dict(runs=[("server", "resp", dict(quick=900, thorough=200000)), ("server", "conn", dict(quick=60, thorough=1500))], proj=proj_full, tags=["C13"],
                 rule="resp: ALL byte strings up to length 5 (thorough 6) over the 13-symbol protocol alphabet + grammar-generated frames with mutations and hostile headers through the real RespParser vs the model; prefix-stability / bounds / depth-restored asserted on the real parser; conn: real TCP, same stream under several chunkings incl. 1-byte chunks"),
-    "C14": dict(runs=[("server", "resp", dict(quick=20000, thorough=2000000)), ("server", "cmd", dict(quick=400, thorough=10000))], proj=proj_full, tags=["C14"],
+    "C14": dict(runs=[("server", "resp", dict(quick=900, thorough=200000)), ("server", "cmd", dict(quick=400, thorough=10000))], proj=proj_full, tags=["C14"],
                 rule="resp: recursively generated values (all five kinds, CR/LF inside bulk strings, i64 extremes, depth up to 128) through the real serializer and parser; cmd: every reply of the real command handler serialised and parsed back as exactly one frame (command names with CR/LF, quotes, non-ASCII)"),
     "C15": dict(runs=[("server", "metrics", dict(quick=300, thorough=6000)), ("server", "cmd", dict(quick=400, thorough=10000)), ("server", "wire", dict(quick=40, thorough=600))], proj=proj_full, tags=["C15"],
                 rule="metrics: random event lists vs the model's counters; 8 OS threads hammering one Metrics, identities at barriers; cmd/wire: which counter each real command moved, /metrics scraped and parsed at quiescent points and compared with what clients saw"),
@@ -169,7 +173,19 @@ def theorem_names(pid):
         srcs.append(src)
         src_nc = re.sub(r"/-.*?-/", "", src, flags=re.S)
         src_nc = re.sub(r"--.*", "", src_nc)
-        names += re.findall(r"^theorem\s+([A-Za-z0-9_'.]+)", src_nc, flags=re.M)
+        stack = []
+        for line in src_nc.splitlines():
+            mm = re.match(r"^namespace\s+([A-Za-z0-9_.]+)", line)
+            if mm:
+                stack.append(mm.group(1))
+                continue
+            mm = re.match(r"^end\s+([A-Za-z0-9_.]+)\s*$", line)
+            if mm and stack and stack[-1] == mm.group(1):
+                stack.pop()
+                continue
+            mm = re.match(r"^(?:private\s+)?theorem\s+([A-Za-z0-9_'.]+)", line)
+            if mm and not line.startswith("private"):
+                names.append(".".join(stack + [mm.group(1)]))
     return "\n".join(srcs), names
 
 def grep_forbidden():
@@ -217,7 +233,7 @@ def leg_p(pid, tier):
     with open(apath, "w") as f:
         for m in mods:
             f.write(f"import {m}\n")
-        f.write("open TcVerif\n")
+
         for n in names:
             f.write(f"#print axioms {n}\n")
     rc, out = sh(["lake", "env", "lean", apath], cwd=LEAN, timeout=1200)
@@ -229,7 +245,7 @@ def leg_p(pid, tier):
     used = set()
     text = out.replace("\n ", " ").replace("\n  ", " ")
     for n in names:
-        m = re.search(r"'(?:TcVerif\.)?" + re.escape(n) + r"' (does not depend on any axioms|depends on axioms: \[([^\]]*)\])", text)
+        m = re.search(r"'(?:[A-Za-z0-9_]+\.)*" + re.escape(n) + r"' (does not depend on any axioms|depends on axioms: \[([^\]]*)\])", text)
         if not m:
             res["detail"] += f"no audit line for {n}\n"
             continue
@@ -260,12 +276,38 @@ def leg_p(pid, tier):
 # builds
 # ------------------------------------------------------------------------------------------------
 
+TRANSLATOR_BROKEN = None
+
+def alt_harness():
+    """private copy of the harness whose path dependencies point at VERIF_REPO"""
+    global HARNESS
+    if REPO == "/repo":
+        return
+    alt = os.path.join(WORK, "altharness-" + hashlib.sha1(REPO.encode()).hexdigest()[:8])
+    os.makedirs(alt, exist_ok=True)
+    sh(["rsync", "-a", "--delete", "--exclude", "target", os.path.join(ROOT, "harness") + "/", alt + "/"])
+    for root, _, files in os.walk(alt):
+        if "/target" in root:
+            continue
+        for f in files:
+            if f == "Cargo.toml":
+                pth = os.path.join(root, f)
+                txt = open(pth).read()
+                new = txt.replace('path = "/repo/', f'path = "{REPO}/')
+                if new != txt:
+                    open(pth, "w").write(new)
+    HARNESS = alt
+
 def build_all(profiles=("release",)):
     """translator + driver + harness; returns (ok, detail)"""
+    alt_harness()
     with Lock("lake"):
         rc, out = sh([sys.executable, os.path.join(ROOT, "translate", "translate.py")], cwd=ROOT, timeout=600)
         if rc != 0:
-            return False, "translator failed (constants / tables could not be regenerated from /repo):\n" + out[-3000:]
+            # the tie "constants/tables of the model = those of the source" is broken; keep the last
+            # generated Consts.lean so that the other legs can still look for a failing input
+            global TRANSLATOR_BROKEN
+            TRANSLATOR_BROKEN = "translator could not regenerate constants / tables from the source: " + out.strip()[-600:]
         rc, out = sh(["lake", "build", "driver"], cwd=LEAN, timeout=3000)
         if rc != 0:
             return False, "lake build driver failed:\n" + "\n".join(l for l in out.splitlines() if "error" in l)[:3000]
@@ -412,6 +454,10 @@ def run_core(pid, tier, seed):
         return 1
     # ---- P
     p = leg_p(pid, tier)
+    if TRANSLATOR_BROKEN:
+        p["ok"] = False
+        p["failing"] = "translator tie (Gen/Consts.lean could not be regenerated)"
+        p["detail"] = TRANSLATOR_BROKEN + "\n" + p.get("detail", "")
     cov["obligations"] = p["obligations"]
     cov["discharged"] = p["discharged"]
     cov["checker_cmd"] = p["checker_cmd"]
